@@ -47,12 +47,38 @@ def run(facts, tr, rep):
     # are inlined where they are invoked — is looked through
     from ..inline import view_of
     keep = set()
+    ff_, ftr_ = view_of(facts, "full")
     for b0 in facts.crates[CRATE].bodies:
         if b0.kind != "fn":
             continue
-        names0 = {m for (_c, m, _l) in _map_calls(tr, b0)}
+        # judged on the function's fully inlined body: the map operations may sit in methods of a private registry struct
+        # that the function calls with the lock held
+        bv0 = ff_.bodies.get(b0.def_) or b0
+        mc0 = _map_calls(ftr_, bv0)
+        names0 = {m for (_c, m, _l) in mc0}
+        if not mc0 or not all(ls for (_c, _m, ls) in mc0):
+            continue
         if ("insert" in names0 and ({"get", "contains_key", "entry", "get_mut"} & names0)) or "remove" in names0 or "remove_entry" in names0:
             keep.add(b0.def_)
+    # ... the innermost such functions: one that reaches another candidate (Service::call reaches try_join) is a user of the roles
+
+    def _reaches(d, depth=0, seen=None):
+        seen = seen if seen is not None else set()
+        b_ = facts.bodies.get(d)
+        if b_ is None or depth > 4 or d in seen:
+            return set()
+        seen.add(d)
+        out = set()
+        for x in descendants(facts, b_):
+            for c in graph(x).calls():
+                for t in c.targets_def():
+                    if facts.bodies.get(t) is not None and t != d:
+                        out.add(t)
+                        out |= _reaches(t, depth + 1, seen)
+        return out
+    for d in sorted(keep):
+        if _reaches(d) & (keep - {d}):
+            keep.discard(d)
     # methods that only forward a key to a remover (a shared `cancel_registered`) keep their role too
     for _round in range(2):
         for b0 in facts.crates[CRATE].bodies:
@@ -70,8 +96,8 @@ def run(facts, tr, rep):
     # ---------------------------------------------------------------- join / complete / cancel functions (by role)
     joins, removers = [], []
     for b in facts.crates[CRATE].bodies:
-        if b.kind != "fn":
-            continue
+        if b.kind != "fn" or facts.absorbed(b):
+            continue        # (a helper inlined into every role function is judged there, with the lock in view)
         mc = _map_calls(tr, b)
         names = {m for (_c, m, _l) in mc}
         if "insert" in names and ({"get", "contains_key", "entry", "get_mut"} & names):
@@ -187,11 +213,13 @@ def run(facts, tr, rep):
             desc = "no key field"
             for f in kf:
                 v = peel(tr.expand(tr.operand(b, rv["ops"][rv["fields"].index(f)], (i, j))))
-                # Some(key) or the value taken out of the registration guard
-                if v[0] == "agg" and tr.agg_of(v)[1].get("variant") == "Some":
-                    okk = True
-                elif v[0] == "call" and tr.call_of(v).name in ("take", "replace"):
-                    okk = True
+                # Some(key) or the value taken out of the registration guard (`guard.key.take()`, or a `release()` of the
+                # guard's own claim type that answers Some(key) for a held claim)
+                for lf in [peel(x) for x in leaves(v)]:
+                    if lf[0] == "agg" and tr.agg_of(lf)[1].get("variant") == "Some":
+                        okk = True
+                    elif lf[0] == "call" and tr.call_of(lf).name in ("take", "replace"):
+                        okk = True
                 desc = show(v)
             rep.ob("C11.HANDOVER", skey(b, "returned-future"), okk, gb.where(i, j),
                    "the returned leading future takes over the registration (its key is present)" if okk else
